@@ -23,7 +23,64 @@ var (
 	HangDeadline = 20 * time.Second
 	HangCPU      = 120 * time.Second
 	HangWall     = 600 * time.Second
+	// HangIdleWall / HangIdleFor / HangIdleCPU: a call is also considered blocked when HangIdleWall of wall time have
+	// passed and during the last HangIdleFor the whole process consumed less than HangIdleCPU of CPU time: every
+	// goroutine is parked, nobody is left who could wake the call. A process that is merely starved by machine load
+	// still accumulates CPU time with its runnable goroutines (seconds per minute even at a load of several hundred).
+	HangIdleWall = 90 * time.Second
+	HangIdleFor  = 60 * time.Second
+	HangIdleCPU  = 300 * time.Millisecond
 )
+
+// CPU samples since the current watched call began
+var (
+	idleMu      sync.Mutex
+	idleSamples []idleSample
+)
+
+type idleSample struct {
+	at  time.Time
+	cpu time.Duration
+}
+
+func resetIdle() {
+	idleMu.Lock()
+	idleSamples = idleSamples[:0]
+	idleMu.Unlock()
+}
+
+// sampleIdle records one sample; called by the watchdog loops between their checks.
+func sampleIdle() {
+	sm := idleSample{at: time.Now(), cpu: ProcessCPU()}
+	idleMu.Lock()
+	if len(idleSamples) > 4000 {
+		idleSamples = append(idleSamples[:0], idleSamples[2000:]...)
+	}
+	idleSamples = append(idleSamples, sm)
+	idleMu.Unlock()
+}
+
+// idleFor reports whether the samples cover the last d and the process consumed less than HangIdleCPU in it.
+func idleFor(d time.Duration) bool {
+	idleMu.Lock()
+	defer idleMu.Unlock()
+	cut := time.Now().Add(-d)
+	if len(idleSamples) < 2 || idleSamples[0].at.After(cut) {
+		return false // the window is not covered yet
+	}
+	var first *idleSample
+	for i := range idleSamples {
+		if !idleSamples[i].at.Before(cut) {
+			first = &idleSamples[i]
+			break
+		}
+	}
+	if first == nil {
+		return false
+	}
+	last := idleSamples[len(idleSamples)-1]
+	return last.at.Sub(first.at) >= d*9/10 && last.cpu-first.cpu < HangIdleCPU
+}
 
 var (
 	watchMu    sync.Mutex
@@ -58,12 +115,17 @@ func Hung(wallStart time.Time, cpuStart time.Duration) (bool, string) {
 	if w := time.Since(wallStart); w > limit {
 		return true, fmt.Sprintf("the call has not returned after %v of wall time (blocked)", w.Round(time.Second))
 	}
+	sampleIdle()
+	if time.Since(wallStart) > HangIdleWall && idleFor(HangIdleFor) {
+		return true, fmt.Sprintf("the call has not returned after %v and for the last %v the whole process consumed less than %v of CPU time (blocked for good, not starved)", time.Since(wallStart).Round(time.Second), HangIdleFor, HangIdleCPU)
+	}
 	return false, ""
 }
 
 // WaitOrHang waits for done; it returns a description if the wait must be considered a hang.
 func WaitOrHang(done <-chan struct{}) (hung bool, why string) {
 	start, cpu := time.Now(), ProcessCPU()
+	resetIdle()
 	t := time.NewTicker(200 * time.Millisecond)
 	defer t.Stop()
 	for {
@@ -108,6 +170,7 @@ func WatchBegin(e *Env) {
 	watchEnv = e
 	watchMu.Unlock()
 	watchCPU.Store(int64(ProcessCPU()))
+	resetIdle()
 	watchStart.Store(time.Now().UnixNano())
 }
 
